@@ -232,21 +232,37 @@ impl Array {
             None
         } else {
             Some(Rc::new(move |c, t, x| {
+                // two vectors are multiplied as a row by a column, so differentiate them as such matrices
+                let is_dot_product = c[0].dimensions.len() < 2
+                    && c[1].dimensions.len() < 2
+                    && !a_transpose
+                    && !b_transpose;
+                let (a, b, x, b_transpose) = if is_dot_product {
+                    (
+                        c[0].reshape(vec![1, c[0].values.len()]),
+                        c[1].reshape(vec![1, c[1].values.len()]),
+                        x.reshape(vec![1, 1]),
+                        true,
+                    )
+                } else {
+                    (c[0].clone(), c[1].clone(), x.clone(), b_transpose)
+                };
+
                 vec![
                     if t[0] {
                         Some(if a_transpose {
-                            Array::matmul((&c[1], b_transpose), (x, true), None)
+                            Array::matmul((&b, b_transpose), (&x, true), None)
                         } else {
-                            Array::matmul((x, false), (&c[1], !b_transpose), None)
+                            Array::matmul((&x, false), (&b, !b_transpose), None)
                         })
                     } else {
                         None
                     },
                     if t[1] {
                         Some(if b_transpose {
-                            Array::matmul((x, true), (&c[0], a_transpose), None)
+                            Array::matmul((&x, true), (&a, a_transpose), None)
                         } else {
-                            Array::matmul((&c[0], !a_transpose), (x, false), None)
+                            Array::matmul((&a, !a_transpose), (&x, false), None)
                         })
                     } else {
                         None
